@@ -3,6 +3,8 @@ package level
 import (
 	"bytes"
 
+	pk "github.com/Tnze/go-mc/net/packet"
+
 	vp "github.com/Tnze/go-mc/internal/zzvp"
 )
 
@@ -105,5 +107,56 @@ func VP_C08_section_structured() {
 	} else {
 		c.PutData(s)
 	}
+	vp.Cover("end")
+}
+
+// whole chunks: arbitrary bytes, and structured encodings whose height maps
+// have an arbitrary number of longs (the wrong size must be an error, not a panic).
+func VP_C08_chunk() {
+	vp.SizeBound(12)
+	c := EmptyChunk(1)
+	if vp.Choice(2) == 0 {
+		n := vp.Choice(vpC08N() + 1)
+		c.ReadFrom(bytes.NewReader(vp.Bytes(n)))
+		vp.Cover("arbitrary")
+		return
+	}
+	var s []byte
+	s = append(s, 10) // network-format compound
+	for _, name := range []string{"MOTION_BLOCKING", "WORLD_SURFACE"} {
+		if vp.Choice(2) == 0 {
+			continue // absent
+		}
+		l := []int{0, 1, 21, 22, 23}[vp.Choice(5)]
+		s = append(s, 12, 0, byte(len(name)))
+		s = append(s, name...)
+		s = append(s, 0, 0, 0, byte(l))
+		longs := make([]byte, 8*l)
+		if l > 0 {
+			longs[0], longs[8*l-1] = vp.Byte(), vp.Byte()
+		}
+		s = append(s, longs...)
+	}
+	s = append(s, 0)
+	// the rest of a valid chunk encoding (section data, block entities, light)
+	base := EmptyChunk(1)
+	var full, hm bytes.Buffer
+	base.WriteTo(&full)
+	pk.NBT(struct {
+		MotionBlocking []uint64 `nbt:"MOTION_BLOCKING"`
+		WorldSurface   []uint64 `nbt:"WORLD_SURFACE"`
+	}{base.HeightMaps.MotionBlocking.Raw(), base.HeightMaps.WorldSurface.Raw()}).WriteTo(&hm)
+	s = append(s, full.Bytes()[hm.Len():]...)
+	_, err := c.ReadFrom(bytes.NewReader(s))
+	_ = err
+	vp.Cover("structured")
+}
+
+// block entities on arbitrary bytes.
+func VP_C08_blockentity() {
+	n := vp.Choice(vpC08N() + 1)
+	vp.SizeBound(n + 2)
+	var be BlockEntity
+	be.ReadFrom(bytes.NewReader(vp.Bytes(n)))
 	vp.Cover("end")
 }
